@@ -311,11 +311,53 @@ def make_pfsoln_contract(variant):
     return fn
 
 
+_CF = {}
+
+
+def _conflict_net(cva):
+    if cva not in _CF:
+        net = pp.create_empty_network()
+        b0, b1 = pp.create_bus(net, 20.), pp.create_bus(net, 20.)
+        pp.create_ext_grid(net, b0)
+        pp.create_line_from_parameters(net, b0, b1, 2., 0.1, 0.3, 10., 1.)
+        pp.create_gen(net, b1, 0.5, vm_pu=1.01)
+        pp.create_gen(net, b1, 0.3, vm_pu=1.01)
+        pp.create_load(net, b1, 1., 0.3)
+        pp.runpp(net, numba=False, lightsim2grid=False, calculate_voltage_angles=cva, check_connectivity=False)
+        _CF[cva] = net
+    return _CF[cva]
+
+
+def make_conflicting_setpoints(cva):
+    """two voltage controlling generators at one bus: a bus can hold one voltage only, so the conversion must refuse set points that differ
+    (UserWarning) instead of silently honouring one of them - whatever calculate_voltage_angles is"""
+    def fn(ctx):
+        p2 = ctx.load("pandapower.pd2ppc")
+        net = copy.deepcopy(_conflict_net(cva))
+        v0, v1 = ctx.var("vm_pu_gen0", 0.95, 1.05), ctx.var("vm_pu_gen1", 0.95, 1.05)
+        setcol(ctx, net.gen, "vm_pu", [v0, v1])
+        net._options["recycle"] = None
+        differ = bool((v0 - v1 >= 0.001) | (v1 - v0 >= 0.001))
+        same = bool(v0 == v1) if not differ else False
+        refused = False
+        try:
+            p2._pd2ppc(net)
+        except UserWarning:
+            refused = True
+        if differ:
+            ctx.true("different_set_points_at_one_bus_are_refused", refused)
+        elif same:
+            ctx.true("equal_set_points_are_accepted", not refused)
+    return fn
+
+
 def instances(tier):
     return [Inst("qlim_loop_all_at_once", make_qlim_loop(True), nvars=24, samples=3, max_paths=3000, meta=dict(part="enforce_q_lims loop", enforce_q_lims=True)),
             Inst("qlim_loop_one_at_a_time", make_qlim_loop(2), nvars=24, samples=3, max_paths=3000, meta=dict(part="enforce_q_lims loop", enforce_q_lims=2)),
             Inst("pfsoln_contract_pypower", make_pfsoln_contract("pypower"), nvars=40, samples=2, meta=dict(part="enforce_q_lims loop: contract of pfsoln", variant="pypower")),
             Inst("pfsoln_contract_numba", make_pfsoln_contract("numba"), nvars=40, samples=2, meta=dict(part="enforce_q_lims loop: contract of pfsoln", variant="numba")),
+            Inst("conflicting_setpoints_cva1", make_conflicting_setpoints(True), nvars=8, samples=4, meta=dict(part="setpoints", calculate_voltage_angles=True)),
+            Inst("conflicting_setpoints_cva0", make_conflicting_setpoints(False), nvars=8, samples=4, meta=dict(part="setpoints", calculate_voltage_angles=False)),
             Inst("setpoints", make_setpoints(), nvars=40, samples=3, meta=dict(part="setpoints")),
             Inst("laws_vdl1", make_laws(True), nvars=48, samples=2, raises=(ValueError,), meta=dict(part="laws", voltage_depend_loads=True)),
             Inst("laws_vdl0", make_laws(False), nvars=48, samples=2, raises=(ValueError,), meta=dict(part="laws", voltage_depend_loads=False)),
